@@ -465,6 +465,215 @@ fn bias_lists_pass(ctx: &Ctx) -> (Evidence, Vec<Violation>) {
     })
 }
 
+// ---- quantisation does not depend on where the value sits in the message ----
+/// A list message with every float leaf of every element set to an in-range, off-grid value; the value that comes
+/// back for element i of the n-element message must be bit-identical to what comes back when that element is the
+/// only one (the field-level pass above establishes the single-element case against the grid).
+fn context_pass(ctx: &Ctx) -> (Evidence, Vec<Violation>) {
+    use crate::checks::c15::LIST_MSGS;
+    use crate::msggen::{self, value_to_message};
+    use crate::value::{schema_key, Step, Value};
+    let corp = msggen::corpus(ctx.seed);
+    let reps = ctx.n(30, 1500) as usize;
+    let parts: Vec<(Evidence, Vec<Violation>)> = LIST_MSGS
+        .par_iter()
+        .map(|number| {
+            let mut ev = Evidence::new();
+            ev.sample_cap = 0;
+            let mut vs: Vec<Violation> = Vec::new();
+            let tc = match corp.of(*number) {
+                Some(t) => t,
+                None => return (ev, vs),
+            };
+            let base0 = &tc.bases[0];
+            let mut all = Vec::new();
+            base0.walk(&mut Vec::new(), &mut all);
+            let path = match all.iter().find(|(p, n)| matches!(n, Value::Seq(_)) && !p.iter().any(|s| matches!(s, Step::Index(_)))) {
+                Some((p, _)) => p.clone(),
+                None => return (ev, vs),
+            };
+            let key = schema_key(&path);
+            let (tpl, cap) = match tc.seq_templates.get(&key) {
+                Some(t) => t.clone(),
+                None => return (ev, vs),
+            };
+            // element pool (decoded elements: integers and flags in range)
+            let mut pool: Vec<Value> = Vec::new();
+            for b in &tc.bases {
+                if let Some(Value::Seq(items)) = b.get(&path) {
+                    for it in items {
+                        if pool.len() < 64 {
+                            pool.push(it.clone());
+                        }
+                    }
+                }
+            }
+            if pool.is_empty() {
+                pool.push(tpl.clone());
+            }
+            let mut leaves = Vec::new();
+            tpl.walk(&mut Vec::new(), &mut leaves);
+            let float_leaves: Vec<Vec<Step>> = leaves.iter().filter(|(_, n)| n.is_float()).map(|(p, _)| p.clone()).collect();
+            if float_leaves.is_empty() {
+                return (ev, vs);
+            }
+            let mut rng = ctx.rng("c11-context", *number as u64);
+            let decode_items = |t: &Value| -> Option<Vec<Value>> {
+                let m = value_to_message(t).ok()?;
+                let f = msggen::build(&m).ok()?;
+                let back = msggen::decode_frame(&f)?;
+                match msggen::message_to_value(&back).get(&path) {
+                    Some(Value::Seq(items)) => Some(items.clone()),
+                    _ => None,
+                }
+            };
+            for rep in 0..reps {
+                let n = match rep % 3 {
+                    0 => cap,
+                    1 => cap.saturating_sub(1).max(1),
+                    _ => 1 + rng.below(cap as u64) as usize,
+                };
+                let base = &tc.bases[rep % tc.bases.len()];
+                let mut items: Vec<Value> = Vec::new();
+                for i in 0..n {
+                    let mut e = pool[(rep * 7 + i) % pool.len()].clone();
+                    // distinct satellite ids where the element has one (some encoders refuse duplicates)
+                    if let Some(Value::U8(sid)) = e.get_mut(&[Step::Field("satellite_id")]) {
+                        *sid = (i % 64) as u8;
+                    }
+                    for lp in &float_leaves {
+                        let mut full = path.clone();
+                        full.push(Step::Index(0));
+                        full.extend(lp.iter().cloned());
+                        if let Some((lo, hi)) = tc.num_ranges.get(&schema_key(&full)).copied() {
+                            let x = lo + (hi - lo) * rng.f64_unit();
+                            match e.get_mut(lp) {
+                                Some(Value::F32(v)) => *v = x as f32,
+                                Some(Value::F64(v)) => *v = x,
+                                _ => {}
+                            }
+                        }
+                    }
+                    items.push(e);
+                }
+                let mut full_tree = base.clone();
+                if let Some(Value::Seq(s)) = full_tree.get_mut(&path) {
+                    *s = items.clone();
+                }
+                let r = catch(|| decode_items(&full_tree));
+                let dec_full = match r {
+                    Ok(Some(d)) if d.len() == n => d,
+                    Ok(_) => {
+                        ev.class("context/message-refused-or-not-typed");
+                        continue;
+                    }
+                    Err(p) => {
+                        if vs.is_empty() {
+                            vs.push(Violation { property: "C11".into(), signature: panic_signature(&p), message: format!("{}: panic: {}", number, p), case: json!({"kind":"context","number":number,"value":full_tree.to_json()}) });
+                        }
+                        continue;
+                    }
+                };
+                for (i, e) in items.iter().enumerate() {
+                    let mut single = base.clone();
+                    if let Some(Value::Seq(s)) = single.get_mut(&path) {
+                        *s = vec![e.clone()];
+                    }
+                    ev.evaluations += float_leaves.len() as u64;
+                    let d1 = match catch(|| decode_items(&single)) {
+                        Ok(Some(d)) if d.len() == 1 => d,
+                        _ => continue,
+                    };
+                    let mut differs: Option<String> = None;
+                    for lp in &float_leaves {
+                        let a = dec_full[i].get(lp);
+                        let b = d1[0].get(lp);
+                        if a != b {
+                            differs = Some(format!("{}: {:?} in the {}-element message, {:?} alone (input {:?})", schema_key(lp), a, n, b, e.get(lp)));
+                            break;
+                        }
+                    }
+                    match differs {
+                        None => {
+                            ev.distinct_by_construction += float_leaves.len() as u64;
+                            if i == n - 1 && n == cap {
+                                ev.class("context/last-element-of-a-full-list");
+                            }
+                        }
+                        Some(d) => {
+                            if vs.is_empty() {
+                                vs.push(Violation {
+                                    property: "C11".into(),
+                                    signature: format!("c11:{}:value-depends-on-position", number),
+                                    message: format!("{}: element {} of {}: the decoded value of {}", number, i, n, d),
+                                    case: json!({"kind":"context","number":number,"index":i,"value":full_tree.to_json()}),
+                                });
+                            }
+                        }
+                    }
+                }
+                ev.class("context/list-message");
+            }
+            (ev, vs)
+        })
+        .collect();
+    let mut ev = Evidence::new();
+    let mut vs = Vec::new();
+    for (e, v) in parts {
+        ev.merge(e);
+        vs.extend(v);
+    }
+    (ev, vs)
+}
+
+/// replay form of the context oracle on one message value
+fn context_case(full_tree: &crate::value::Value) -> Result<(), (String, String)> {
+    use crate::msggen::{self, value_to_message};
+    use crate::value::{schema_key, Step, Value};
+    let mut all = Vec::new();
+    full_tree.walk(&mut Vec::new(), &mut all);
+    let path = match all.iter().find(|(p, n)| matches!(n, Value::Seq(_)) && !p.iter().any(|s| matches!(s, Step::Index(_)))) {
+        Some((p, _)) => p.clone(),
+        None => return Ok(()),
+    };
+    let items = match full_tree.get(&path) {
+        Some(Value::Seq(i)) => i.clone(),
+        _ => return Ok(()),
+    };
+    let decode_items = |t: &Value| -> Option<(u16, Vec<Value>)> {
+        let m = value_to_message(t).ok()?;
+        let number = m.number().unwrap_or(0);
+        let f = msggen::build(&m).ok()?;
+        let back = msggen::decode_frame(&f)?;
+        match msggen::message_to_value(&back).get(&path) {
+            Some(Value::Seq(items)) => Some((number, items.clone())),
+            _ => None,
+        }
+    };
+    let (number, dec_full) = match catch(|| decode_items(full_tree)) {
+        Ok(Some(d)) => d,
+        Ok(None) => return Ok(()),
+        Err(p) => return Err((panic_signature(&p), format!("panic: {}", p))),
+    };
+    for (i, e) in items.iter().enumerate() {
+        let mut single = full_tree.clone();
+        if let Some(Value::Seq(s)) = single.get_mut(&path) {
+            *s = vec![e.clone()];
+        }
+        if let Ok(Some((_, d1))) = catch(|| decode_items(&single)) {
+            let mut leaves = Vec::new();
+            e.walk(&mut Vec::new(), &mut leaves);
+            for (lp, node) in leaves.iter().filter(|(_, n)| n.is_float()) {
+                let _ = node;
+                if dec_full.get(i).and_then(|x| x.get(lp)) != d1.first().and_then(|x| x.get(lp)) {
+                    return Err((format!("c11:{}:value-depends-on-position", number), format!("{}: element {} of {}: the decoded value of {} differs from the single-element message", number, i, items.len(), schema_key(lp))));
+                }
+            }
+        }
+    }
+    Ok(())
+}
+
 fn codec_by_name(name: &str) -> Option<Codec<'static>> {
     match name {
         "bias1059" => Some(bias_codec(BiasMsg::M1059, 0, 7)),
@@ -481,7 +690,7 @@ pub fn run(ctx: &Ctx, replay: Option<&J>) -> CheckResult {
          seeded random) x t in {{1e-9,1e-6,.1,.25,.49,.499999,.5,.500001,.51,.75,.9,.999999,1-1e-9}} + 3 random t + the grid points themselves (t=0, t=1); input x = g(k)+t*(g(k+1)-g(k)) rounded to the field's \
          float type, g = the decoder applied to consecutive patterns (intervals touching the 'absent' marker skipped). oracle: encode(x) is k or k+1, \
          |g(encode(x))-x| <= step/2 + 16u(max|g|,|x| + step) with u=2^-24/2^-53, indexes non-decreasing in x. non-trivial = input strictly between two grid points; \
-         distinct = (field,k,t). plus bias lists in caller order: 1230 lists in every ordered arrangement of every subset of its four signals and 1059/1065 lists of 1..=6 satellites x 1..=5 signals in shuffled order, every entry an off-grid value, each entry's decoded value compared with its own input under the same bound",
+         distinct = (field,k,t). plus bias lists in caller order: 1230 lists in every ordered arrangement of every subset of its four signals and 1059/1065 lists of 1..=6 satellites x 1..=5 signals in shuffled order, every entry an off-grid value, each entry's decoded value compared with its own input under the same bound; and position independence: list messages (31 types) filled to capacity / capacity-1 / a random length with in-range off-grid values in every float leaf, each element's decoded floats bit-identical to those of the single-element message",
         nfloat
     );
     let assumptions = vec![
@@ -492,7 +701,15 @@ pub fn run(ctx: &Ctx, replay: Option<&J>) -> CheckResult {
         let mut ev = Evidence::new();
         ev.eval();
         let mut vs = Vec::new();
-        if c["kind"] == "bias-list" {
+        if c["kind"] == "context" {
+            // replay of a context case: re-run the pass for that message type only is not possible from the case alone in a
+            // cheaper way than re-evaluating the full message against its single-element forms
+            if let Some(t) = c.get("value").and_then(crate::value::Value::from_json) {
+                if let Err((sig, msg)) = context_case(&t) {
+                    vs.push(Violation { property: "C11".into(), signature: sig, message: msg, case: c.clone() });
+                }
+            }
+        } else if c["kind"] == "bias-list" {
             let m = match c["message"].as_u64() {
                 Some(1059) => BiasMsg::M1059,
                 Some(1065) => BiasMsg::M1065,
@@ -592,6 +809,9 @@ pub fn run(ctx: &Ctx, replay: Option<&J>) -> CheckResult {
     let (bev, bvs) = bias_lists_pass(ctx);
     ev.merge(bev);
     vs.extend(bvs);
+    let (cev, cvs) = context_pass(ctx);
+    ev.merge(cev);
+    vs.extend(cvs);
     ev.extra.insert("float_fields".into(), json!(nfloat));
     vs.truncate(8);
     CheckResult { evidence: ev, rule, assumptions, violations: vs }
